@@ -15,7 +15,9 @@ unsigned long g_Wd; unsigned char g_wb;   /* watched input index #2 (used for "a
 #define STREAM_OK(in) ((!((in)->eofbit || (in)->failbit || (in)->badbit) || (in)->remaining == 0) && (in)->remaining < (1UL << 60))
 #define DEC_INV(d) (SAME((d)->m_p, (d)->m_buffer) && SAME((d)->m_end, (d)->m_buffer) && OFF((d)->m_buffer) == 0 && \
                     __CPROVER_OBJECT_SIZE((d)->m_buffer) == DEC_BUF && DEC_PO(d) <= DEC_EO(d) && DEC_EO(d) <= DEC_BUF && \
-                    g_win_start <= g_delivered && g_delivered - g_win_start == DEC_EO(d) && g_delivered < (1UL << 61) && g_delivered + (d)->m_input->remaining < (1UL << 61) && STREAM_OK((d)->m_input))
+                    g_win_start <= g_delivered && g_delivered - g_win_start == DEC_EO(d) && g_delivered < (1UL << 61) && g_delivered + (d)->m_input->remaining < (1UL << 61) && STREAM_OK((d)->m_input) && \
+                    /* reachable states only: a good stream has so far delivered only full windows */ \
+                    ((d)->m_input->eofbit || (d)->m_input->failbit || (d)->m_input->badbit || DEC_EO(d) == DEC_BUF || (DEC_EO(d) == 0 && g_delivered == 0)))
 #define DEC_POS(d) (g_win_start + DEC_PO(d))
 #define DEC_AVAIL(d) ((DEC_EO(d) - DEC_PO(d)) + (d)->m_input->remaining)
 #define WATCH1(d, W, v) (!((W) >= g_win_start && (W) - g_win_start < DEC_EO(d)) || (d)->m_buffer[(W) - g_win_start] == (v))
@@ -56,3 +58,21 @@ struct istream *istream__read(struct istream *in, char *buf, long n)
 #define MT(h) ((unsigned char)((h) & 0xE0))
 #define AIV(h) ((unsigned char)((h) & 0x1F))
 #define EXC3(e) ((e) == 0 || (e) == EXC_CdnsDecoderEnd || (e) == EXC_CdnsDecoderException)
+
+/* A5 std::string as built by the decoder: length + one watched character (index g_Ws, arbitrary) */
+typedef struct { unsigned long len; unsigned char wch; } cstring;
+unsigned long g_Ws;
+unsigned long g_reserve_max;   /* ghost: largest reserve() argument that is justified (input still available, or a constant) */
+static inline cstring cstring__empty(void) { cstring s; s.len = 0; s.wch = 0; return s; }
+static inline unsigned long cstring__size(cstring *s) { return s->len; }
+static inline void cstring__reserve(cstring *s, unsigned long n)
+{
+  if (g_exc) return;
+  __CPROVER_assert(n <= s->len + g_reserve_max || n <= s->len + DEC_BUF, "string.reserve: allocation not sized by an unchecked length field (<= bytes already read + input still available, or + 64 KiB)");
+}
+static inline void cstring__push_back(cstring *s, char c)
+{
+  if (g_exc) return;
+  if (s->len == g_Ws) s->wch = (unsigned char)c;
+  s->len++;
+}
